@@ -98,6 +98,22 @@ def matched_pair(rng, ldim, tier):
     return inner, sym("M2"), 0, 1, -1, "polar|symbolic"
 
 
+def user_poly_mapping(rng, name, ax, kind_key="kind"):
+    """a polynomial mapping of the plane whose Jacobian depends on the coordinate x_ax"""
+    xs = ["x1", "x2"]
+    ex = []
+    for i in range(2):
+        ex.append("%d*%s + %s/%d + x1*x2/%d + %s**2/%d" % (rng.randint(2, 4), xs[i], xs[1 - i], rng.randint(3, 5),
+                                                         rng.randint(3, 6), xs[ax], rng.randint(2, 5) + 2 * i))
+    return {kind_key: "user", "name": name, "exprs": ex}
+
+
+def nonunit_pair(rng, ax):
+    bm = rng.choice([(1, 2), (3, 2), (5, 4), (1, 1)])
+    bp = rng.choice([(1, 2), (3, 2), (5, 4), (7, 4)])
+    return sym("M1"), user_poly_mapping(rng, "F2", ax), bm, bp
+
+
 def gen_iform(rng, ldim, form, tier, pairing):
     """(tree, template name, has a (+,+) part)"""
     s1, s2 = rng.choice("-+"), rng.choice("-+")
@@ -153,6 +169,16 @@ def gen_if_case(rng, tier, budget):
         budget["if_3d"] -= 1
     m1, m2, ax, em, ep, pairing = matched_pair(rng, ldim, tier)
     patches = [{"name": "A", "mapping": m1}, {"name": "B", "mapping": m2}]
+    if ldim == 2 and rng.random() < 0.13:
+        # logical patches that are NOT unit squares: the common face has a non-integer logical coordinate on both sides;
+        # the plus mapping is analytical and non-affine in that coordinate (user polynomial mapping), the minus one symbolic
+        m1, m2, bm, bp = nonunit_pair(rng, ax)
+        em, ep, pairing = 1, -1, "symbolic|user-polynomial:nonunit"
+        ba = [[[0, 1], [1, 1]], [[0, 1], [1, 1]]]
+        bb = [[[0, 1], [1, 1]], [[0, 1], [1, 1]]]
+        ba[ax] = [[bm[0] - bm[1], bm[1]], [bm[0], bm[1]]]
+        bb[ax] = [[bp[0], bp[1]], [bp[0] + bp[1], bp[1]]]
+        patches = [{"name": "A", "mapping": m1, "bounds": ba}, {"name": "B", "mapping": m2, "bounds": bb}]
     conn = [[[0, ax, em], [1, ax, ep]]]
     if ldim == 2 and "symbolic" in pairing and rng.random() < 0.3:
         conn[0].append(-1)            # orientation -1: the tangential coordinate of the plus face runs the other way
@@ -171,13 +197,27 @@ def gen_if_case(rng, tier, budget):
             k = 1
     form = "bilinear" if rng.random() < 0.8 else "linear"
     tree, tmpl, has_pp = gen_iform(rng, ldim, form, tier, pairing)
+    kind, vec = None, False
+    if form == "bilinear" and ldim == 2 and rng.random() < 0.24:
+        # trial / test functions whose pull-back carries the Jacobian of their OWN patch: L2 (u^/det J), H(div)
+        # (J u^/det J), H(curl) (J^-T u^); all four side combinations
+        s1, s2 = rng.choice("-+"), rng.choice("-+")
+        kind = rng.choice(["l2", "l2", "hdiv", "hdiv", "hcurl", "l2v"])
+        vec = kind != "l2"
+        kind = "l2" if kind == "l2v" else kind
+        if vec:
+            tree, tmpl = MUL(G, DOT(FN("u", s1), FN("v", s2))), "%s:u.v" % kind
+        else:
+            tree, tmpl = MUL(G, FN("u", s1), FN("v", s2)), "l2:u*v"
+        has_pp = s1 == "+" and s2 == "+"
     if has_pp or rng.random() < 0.3:
         g = X.num(rng.choice([1, 1, 2, 3]))          # the plus-side piece keeps the minus coordinates (known finding)
     else:
         g = gen_analytic(rng, ldim, False, rich=(ldim == 2 and "polar" not in pairing))
     return {"layout": "three" if three else "two", "ldim": ldim, "pdim": ldim, "patches": patches, "connectivity": conn,
             "region": {"t": "interface", "k": k}, "form": form, "sides": None, "integrand": g, "grad": False,
-            "iform": tree, "template": tmpl, "pairing": pairing, "history": [], "seed": rng.randrange(1 << 30)}
+            "iform": tree, "template": tmpl, "pairing": pairing, "history": [], "seed": rng.randrange(1 << 30),
+            "kind": kind, "vec": vec}
 
 
 def weight(c):
@@ -220,21 +260,28 @@ def plus_mapping_class(case):
     m = case["patches"][c[1][0]]["mapping"]
     if m["kind"] == "symbolic":
         return "symbolic"
-    return "affine" if m["cls"] in ("AffineMapping", "IdentityMapping") else "nonaffine-analytical"
+    return "affine" if m.get("cls") in ("AffineMapping", "IdentityMapping") else "nonaffine-analytical"
 
 
 def feature(case):
     """the construct of the integrand that a failure is attributed to (first that applies)"""
     t = case["iform"]
+
+    def plus_under_d():
+        # d_i applied to a function that is (or, since restrictions of compound expressions are pushed to the functions,
+        # becomes) restricted to the plus side
+        for n, under in walk(t):
+            if n["k"] == "fn" and any(p["k"] == "d" for p in under):
+                if n["s"] == "+" or (n["s"] == "0" and any((p["k"] == "res" and p["s"] == "+") or p["k"] in ("jump", "avg") for p in under)):
+                    return True
+        return False
+    if plus_mapping_class(case) == "nonaffine-analytical" and plus_under_d():
+        return "dxi-of-plus-restricted"
     if any(n["k"] == "Dn" for n, _ in walk(t)):
         return "normal-derivative"
     for n, under in walk(t):
         if n["k"] in ("grad", "d") and any(p["k"] in ("res", "jump", "avg") for p in under):
             return "restriction-of-derivative"
-    if plus_mapping_class(case) == "nonaffine-analytical":
-        for n, under in walk(t):
-            if n["k"] == "fn" and n["s"] == "+" and any(p["k"] == "d" for p in under):
-                return "dxi-of-plus-restricted"
     return "none"
 
 
